@@ -21,7 +21,7 @@ RULE = ("a case = (entry point, arguments): every public constructor of base fun
         "[0..0 1], unit quaternion norm, finite, correct shape, never None - to 1e-9. Non-trivial: angle within 1e-6 of a "
         "special value, or axis length outside [0.5,2], or |t|>1e3, or deg, or non-default order, or tree depth>=2, or "
         "multi-valued.")
-RULE = RULE + probes.RULE_TEXT + (probes.AUG_TEXT if PROPERTY_ID in probes.AUG_PROPS else "") + probes.VARIANT_TEXT + probes.OWN_TEXT
+RULE = RULE + probes.RULE_TEXT + (probes.AUG_TEXT if PROPERTY_ID in probes.AUG_PROPS else "") + probes.VARIANT_TEXT + probes.OWN_TEXT + probes.EXTRA_RULES.get(PROPERTY_ID, "")
 ASSUMPTIONS = ["validity predicate only (class identity of results is C08's business)",
                "axis lengths in (2e-15, 1e-3) are not generated: the statement acknowledges the absolute zero threshold",
                "trnorm input is a member perturbed by at most 1e-2"]
